@@ -11,6 +11,7 @@ use crate::table::PERIODIC_TABLE;
 pub enum ElementSpecificationParsingError {
     UnclosedIsotope,
     UnknownElement,
+    InvalidIsotope,
 }
 
 impl Display for ElementSpecificationParsingError {
@@ -146,34 +147,31 @@ impl<'transient, 'lifespan: 'transient, 'element> ElementSpecification<'element>
         string: &'transient str,
         periodic_table: &'lifespan PeriodicTable,
     ) -> Result<ElementSpecification<'lifespan>, ElementSpecificationParsingError> {
-        let n = string.len();
-        let elt_start = 0;
-        let mut elt_end = n;
-        let mut iso_start = n;
-        let mut iso_end = n;
-        for (i, c) in string.chars().enumerate() {
-            if c == '[' {
-                elt_end = i;
-                if n > i {
-                    iso_start = i + 1;
-                } else {
-                    return Err(ElementSpecificationParsingError::UnclosedIsotope);
+        // `symbol` or `symbol[isotope]`: everything up to the first '[' is the symbol, and a
+        // bracketed isotope number must run to the closing ']' at the very end of the string.
+        let (elt_sym, isotope_str) = match string.find('[') {
+            Some(i) => match string[i + 1..].strip_suffix(']') {
+                Some(isotope_str) => (&string[..i], Some(isotope_str)),
+                None => return Err(ElementSpecificationParsingError::UnclosedIsotope),
+            },
+            None => (string, None),
+        };
+        let element = periodic_table
+            .get(elt_sym)
+            .ok_or(ElementSpecificationParsingError::UnknownElement)?;
+        let isotope = match isotope_str {
+            Some(isotope_str) => {
+                let isotope = isotope_str
+                    .parse::<u16>()
+                    .map_err(|_| ElementSpecificationParsingError::InvalidIsotope)?;
+                if !element.isotopes.contains_key(&isotope) {
+                    return Err(ElementSpecificationParsingError::InvalidIsotope);
                 }
-            } else if c == ']' {
-                iso_end = i;
+                isotope
             }
-        }
-        let elt_sym = &string[elt_start..elt_end];
-        if let Some(element) = periodic_table.get(elt_sym) {
-            let isotope = if iso_start != iso_end {
-                string[iso_start..iso_end].parse::<u16>().unwrap()
-            } else {
-                0
-            };
-            Ok(ElementSpecification::new(element, isotope))
-        } else {
-            Err(ElementSpecificationParsingError::UnknownElement)
-        }
+            None => 0,
+        };
+        Ok(ElementSpecification::new(element, isotope))
     }
 }
 
